@@ -464,6 +464,89 @@ func (t *tester) history(hi int) {
 	}
 }
 
+// pure runs a memory-only history: free puts, updates and hard deletes in Mutable/Freeze groups, every frozen
+// version retained with its model snapshot (no persist cycles, so no tombstone discipline is needed)
+func (t *tester) pure(hi int) {
+	r := t.r
+	rep := t.rep
+	ident := fmt.Sprintf("memory history %d shard %d seed %d", hi, vk.Shard(), vk.Seed())
+	rep.Case("%s", ident)
+	h := fnv.New64a()
+	keys := t.genKeys(4 + r.IntN(150))
+	fmt.Fprintf(h, "pure %x|", keys)
+	var cur Hamt
+	model := map[uint64]ment{}
+	versions := []*version{{ht: cur, model: copyModel(model), name: "v0(empty)"}}
+	ngroups := 100 + r.IntN(300)
+	dataSeq := uint32(0)
+	pDel := []int{2, 4, 5}[r.IntN(3)] // of 8
+	for g := 0; g < ngroups; g++ {
+		// sometimes branch from an older version instead of the newest (persistent data structure)
+		base := versions[len(versions)-1]
+		if r.IntN(10) == 0 {
+			base = versions[r.IntN(len(versions))]
+		}
+		cur = base.ht
+		model = copyModel(base.model)
+		mut := cur.Mutable()
+		nops := 1 + r.IntN(20)
+		failed := false
+		if p, _ := vk.Catch(func() {
+			for o := 0; o < nops; o++ {
+				k := keys[r.IntN(len(keys))]
+				_, has := model[k]
+				if has && r.IntN(8) < pDel {
+					if !mut.Delete(k) {
+						rep.Violate("C15/delete-reports-not-found", fmt.Sprintf("%s group %d key %#x", ident, g, k), "")
+						failed = true
+						return
+					}
+					delete(model, k)
+					fmt.Fprintf(h, "d%x;", k)
+					rep.Count("hard_deletes", 1)
+				} else if !has && r.IntN(6) == 0 {
+					if mut.Delete(k) {
+						rep.Violate("C15/delete-reports-found-for-absent-key", fmt.Sprintf("%s group %d key %#x", ident, g, k), "")
+						failed = true
+						return
+					}
+				} else {
+					dataSeq++
+					mut.Put(&item{key: k, data: dataSeq})
+					model[k] = ment{data: dataSeq}
+					fmt.Fprintf(h, "p%x;", k)
+					rep.Count("puts", 1)
+				}
+			}
+		}); p != nil {
+			rep.Violate("C15/panic/modify", fmt.Sprintf("%s group %d", ident, g), fmt.Sprint(p))
+			failed = true
+		}
+		if failed {
+			rep.Eval(h.Sum64(), true)
+			return
+		}
+		cur = mut.Freeze()
+		versions = append(versions, &version{ht: cur, model: model, name: fmt.Sprintf("v%d(from %s)", len(versions), base.name[:min(6, len(base.name))])})
+		for _, vi := range []int{len(versions) - 1, r.IntN(len(versions))} {
+			if !t.check(ident, versions[vi], keys) {
+				rep.Violate("C15/older-version-affected", fmt.Sprintf("%s after group %d: version %s of %d", ident, g, versions[vi].name, len(versions)), "")
+				rep.Eval(h.Sum64(), true)
+				return
+			}
+		}
+	}
+	for _, v := range versions {
+		if !t.check(ident, v, keys) {
+			rep.Violate("C15/older-version-affected", fmt.Sprintf("%s at the end: version %s of %d", ident, v.name, len(versions)), "")
+			break
+		}
+	}
+	rep.Count("versions_retained", len(versions))
+	rep.Count("memory_histories", 1)
+	rep.Eval(h.Sum64(), true)
+}
+
 // directed: the smallest history in which a table loses its last live entry right before a flattening persist
 func (t *tester) directed() {
 	rep := t.rep
@@ -513,5 +596,7 @@ func TestVerifC15(t *testing.T) {
 	for i := 0; i < n; i++ {
 		tt.r = vk.RandFor(15, i)
 		tt.history(i)
+		tt.r = vk.RandFor(16, i)
+		tt.pure(i)
 	}
 }
